@@ -323,7 +323,7 @@ Proof.
     - destruct (IH e start _ W1) as [W2 T2]. split; auto.
       intros x. specialize (T2 x). specialize (T1 x). specialize (T0 x). lia.
     - split; auto. intros x. specialize (T1 x). specialize (T0 x). lia. }
-  destruct (leader (nd s)); auto. destruct (wait_leader (cf e)); auto. split; auto.
+  destruct (leader (nd s)); auto. destruct (wait_leader (cf e)); auto; split; auto.
 Qed.
 
 Lemma step_le_check_commands : forall e, step_le (check_commands e).
@@ -468,4 +468,124 @@ Proof.
     - apply step_le_tick_rest. }
   destruct (R (start_S e n) W) as [W1 T1]. split; auto.
   intros x. specialize (T1 x). now rewrite total_start in T1.
+Qed.
+
+(* ---- __onMessageReceived ---- *)
+Lemma step_le_on_append_entries : forall e from m t c, step_le (on_append_entries e from m t c).
+Proof.
+  intros e from m t c s W. unfold on_append_entries.
+  destruct (t <? term (nd s)); [split; auto|].
+  set (s1 := upd (fun n => n <| deadline := (tnow s + gen_timeout e)%Z |>) s).
+  set (s2 := if opt_eqb (leader (nd s1)) (Some from) then s1 else on_leader_changed s1).
+  assert (W1 : wc_ok s1) by exact W.
+  assert (T1 : forall x, total x s1 = total x s) by (intros; apply total_cview; reflexivity).
+  assert (P2 : wc_ok s2 /\ forall x, (total x s2 <= total x s)%nat).
+  { unfold s2. destruct (opt_eqb (leader (nd s1)) (Some from)).
+    - split; auto. intros x. rewrite T1. lia.
+    - destruct (step_le_on_leader_changed s1 W1) as [A B]. split; auto. intros x. rewrite <- T1. apply B. }
+  destruct P2 as [W2 T2].
+  set (s3 := upd (fun n => n <| leader := Some from |>) s2).
+  set (s4 := if term (nd s3) <? t then upd (fun n => n <| term := t |> <| voted := None |>) s3 else s3).
+  set (s5 := set_role FOLLOWER s4).
+  set (s6 := upd (fun n => n <| leader_commit := Some c |>) s5).
+  assert (V6 : view_of s6 = view_of s2).
+  { unfold s6, s5, s4, s3. rewrite view_upd by reflexivity. rewrite view_set_role.
+    destruct (term (nd (upd (fun n => n <| leader := Some from |>) s2)) <? t); auto. }
+  assert (W6 : wc_ok s6) by (eapply wc_ok_cview; [apply view_cview; eauto|auto]).
+  assert (T6 : forall x, (total x s6 <= total x s)%nat) by (intros x; rewrite (total_view x _ _ V6); apply T2).
+  clearbody s6. clear V6 s5 s4 s3.
+  assert (K : forall s7, cview_of s7 = cview_of s6 -> wc_ok s7 /\ forall x, (total x s7 <= total x s)%nat).
+  { intros s7 C. split. - eapply wc_ok_cview; eauto. - intros x. rewrite (total_cview x _ _ C). apply T6. }
+  destruct m as [| |tt cc prev es|tt cc prev lab off len en|tt cc p| | |]; try (apply K; reflexivity).
+  - apply K, sview_cview, sview_ae_regular.
+  - destruct (lab =? 1).
+    + apply K. rewrite (view_cview _ _ (view_send_next_idx _ _ _ _ _)). reflexivity.
+    + destruct (recv_t (nd s6)) eqn:R; [apply K; reflexivity|].
+      destruct (lab =? 2).
+      * apply K. rewrite (view_cview _ _ (view_send_next_idx _ _ _ _ _)). reflexivity.
+      * destruct (assemble_entry _); [|apply K; reflexivity].
+        apply K. rewrite (sview_cview _ _ (sview_ae_regular _ _ _ _ _ _)). reflexivity.
+  - destruct (set_transmission p s6) as [s7 done] eqn:ST.
+    assert (C7 : cview_of s7 = cview_of s6).
+    { change s7 with (fst (s7, done)). rewrite <- ST. apply sview_cview, sview_set_transmission. }
+    destruct (done && load_dump_ok s7).
+    + apply K. rewrite (view_cview _ _ (view_ae_commit _ _ _)), (view_cview _ _ (view_send_next_idx _ _ _ _ _)).
+      now rewrite cview_load_dump.
+    + apply K. now rewrite (view_cview _ _ (view_ae_commit _ _ _)).
+Qed.
+
+Lemma r_ids_adel : forall x k wr cbk, aget k wr = Some cbk ->
+  (cnt x (r_ids (adel k wr)) + cnt x (cb_id cbk))%nat = cnt x (r_ids wr).
+Proof.
+  intros x k wr cbk H. pose proof (cnt_adel (fun c : cbref => cb_id c) x k wr) as A.
+  rewrite H in A. exact A.
+Qed.
+
+Theorem on_message_ids : forall e from m n,
+  asorted None (wait_commit n) ->
+  asorted None (wait_commit (nd (on_message e from m n))) /\
+  forall x, (total x (on_message e from m n) <= cnt x (node_ids n))%nat.
+Proof.
+  intros e from m n W.
+  assert (K : forall s7, cview_of s7 = cview_of (start_S e n) ->
+              asorted None (wait_commit (nd s7)) /\ forall x, (total x s7 <= cnt x (node_ids n))%nat).
+  { intros s7 C. split.
+    - apply (wc_ok_cview s7 (start_S e n) C). exact W.
+    - intros x. rewrite (total_cview x _ _ C), total_start. lia. }
+  assert (AE_ : forall t c, asorted None (wait_commit (nd (on_append_entries e from m t c (start_S e n)))) /\
+             forall x, (total x (on_append_entries e from m t c (start_S e n)) <= cnt x (node_ids n))%nat).
+  { intros t c. destruct (step_le_on_append_entries e from m t c (start_S e n) W) as [A B].
+    split; auto. intros x. rewrite <- total_start with (e := e). apply B. }
+  unfold on_message.
+  destruct m as [t lli llt|t|t c prev es|t c prev lab off len en|t c p|c req|req okr a b|t next reset success];
+    try apply AE_.
+  - (* RequestVote *)
+    cbn [nd start_S]. destruct (self n); [|apply K; reflexivity].
+    set (s1 := if term (nd (start_S e n)) <? t then _ else start_S e n).
+    assert (V1 : view_of s1 = view_of (start_S e n)).
+    { unfold s1. destruct (term (nd (start_S e n)) <? t); auto.
+      rewrite view_upd by reflexivity. rewrite view_set_role. reflexivity. }
+    apply view_cview in V1.
+    destruct ((role (nd s1) =? FOLLOWER) || (role (nd s1) =? CANDIDATE)); [|now apply K].
+    destruct (term (nd s1) <=? t); [|now apply K].
+    destruct (llt <? last_term (log (nd s1))); [now apply K|].
+    destruct ((llt =? last_term (log (nd s1))) && (lli <? last_idx (log (nd s1)))); [now apply K|].
+    destruct (voted (nd s1)); [now apply K|].
+    apply K. rewrite (view_cview _ _ (view_send _ _ _)). exact V1.
+  - (* ResponseVote *)
+    destruct ((role (nd (start_S e n)) =? CANDIDATE) && (t =? term (nd (start_S e n)))); [|apply K; reflexivity].
+    match goal with |- context [if ?b then _ else _] => destruct b end.
+    + apply K. rewrite (sview_cview _ _ (sview_become_leader _ _)). reflexivity.
+    + apply K. reflexivity.
+  - (* ApplyCmd: a forwarded command enters the queue with a remote reference *)
+    destruct (step_submit e c (match req with Some r => CbRemote from r | None => CbNone end) (start_S e n)) as [A B].
+    split. + apply A, W.
+    + intros x. rewrite B, total_start. destruct req; cbn [cb_id]; rewrite cnt_nil; lia.
+  - (* ApplyResp *)
+    destruct (aget req (wait_reply (nd (start_S e n)))) as [cbk|] eqn:G; [|apply K; reflexivity].
+    cbn [nd start_S] in G.
+    set (s1 := upd (fun n => n <| wait_reply := adel req (wait_reply n) |>) (start_S e n)).
+    assert (T1 : forall x, (total x s1 + cnt x (cb_id cbk))%nat = cnt x (node_ids n)).
+    { intros x. unfold total, node_ids, s1. cbn [upd nd outs start_S]. cbn.
+      change (fired_ids []) with (@nil N). rewrite !cnt_app, cnt_nil.
+      pose proof (r_ids_adel x req (wait_reply n) cbk G). lia. }
+    destruct (negb okr).
+    + split. * rewrite fire_nd. exact W. * intros x. rewrite total_fire, <- (T1 x). lia.
+    + destruct (a <=? applied (nd s1)).
+      * split. -- exact W. -- intros x. change (total x (raise EXC_ASSERT s1)) with (total x s1). rewrite <- (T1 x). lia.
+      * split.
+        -- cbn. apply asorted_aset; auto.
+        -- intros x. unfold total, node_ids. cbn [upd nd outs]. cbn.
+           fold (subs_of a (wait_commit n)). rewrite !cnt_app, c_ids_aset_sub by exact W.
+           specialize (T1 x). unfold total, node_ids, s1 in T1. cbn [upd nd outs start_S] in T1. cbn in T1.
+           rewrite !cnt_app in T1. lia.
+  - (* NextIdx *)
+    destruct ((role (nd (start_S e n)) =? LEADER) && (t =? term (nd (start_S e n)))); [|apply K; reflexivity].
+    set (s1 := if reset then _ else start_S e n).
+    assert (C1 : cview_of s1 = cview_of (start_S e n)) by (unfold s1; destruct reset; reflexivity).
+    set (s2 := if success then _ else s1).
+    assert (C2 : cview_of s2 = cview_of (start_S e n)).
+    { unfold s2. destruct success; auto. destruct (aget from (match_idx (nd s1))); auto.
+      destruct (n0 <? next - 1); auto. }
+    destruct (ok s2); apply K; auto.
 Qed.
